@@ -20,6 +20,10 @@ Proof.
 Qed.
 Lemma kupd_idem l k t k' : kupd (kupd l k t) k t k' = kupd l k t k'.
 Proof. unfold upd. destruct (key_eqb k' k); reflexivity. Qed.
+Lemma kclr_upd l k t k' : kclr (kupd l k t) k k' = kclr l k k'.
+Proof. unfold clr, upd. destruct (key_eqb k' k); reflexivity. Qed.
+Lemma ginv_pop_after_use {V} T now l (d : td key V) k : ginv T now (kupd l k now) d -> ginv T now (kclr l k) (td_pop key_eqb k d).
+Proof. intros G. apply (ginv_ext T now (kclr (kupd l k now) k)); [apply kclr_upd|]. apply (td_ginv_pop key_eqb key_eqb_eq). exact G. Qed.
 Lemma khas_kget {V} k (d : td key V) : khas k d = true <-> kget k d <> None.
 Proof. unfold has, kget. destruct (alist_get key_eqb k (td_items d)); split; congruence. Qed.
 Lemma khas_some {V} k (d : td key V) v : kget k d = Some v -> khas k d = true.
@@ -35,17 +39,21 @@ Proof. intros Tp I H. apply (ginv_ext T now (kupd (kupd l k now) k now)); [apply
 
 (* ------------------------------------------------------------------------------------------
    WHICH SERVER OPERATIONS COUNT AS A USE.
-   Block1Spool: a block 0 of key k (the assembly is (re)started); any continuation (NUM>0) of k that finds an
-   assembly — whether it is appended (2.31 / handed to the handler) or REJECTED with 4.00 (length) or 4.08
-   (gap / overlap): the lookup has refreshed the timeout before the block is examined.  A continuation that
-   finds nothing (KeyError) is not a use, nor is a request without Block1. *)
+   Block1Spool: a block 0 of key k with M=1 (the assembly is (re)started); any continuation (NUM>0) of k that finds an
+   assembly and is appended with M=1 (2.31) or REJECTED with 4.00 (length) or 4.08 (gap / overlap): the lookup has
+   refreshed the timeout before the block is examined.  A block with M=0 that completes the assembly hands it to the
+   handler and REMOVES it from the spool (the ghost forgets the key).  A continuation that finds nothing (KeyError) is
+   not a use, nor is a request without Block1. *)
 Definition last1_step (now : Z) (l : key -> option Z) (sp : spool) (req : msg) : key -> option Z :=
   match m_block1 req with
   | None => l
   | Some b =>
     let k := extract_block_key req in
-    if b_num b =? 0 then kupd l k now
-    else match kget k sp with Some _ => kupd l k now | None => l end
+    if b_num b =? 0 then (if b_more b then kupd l k now else kclr l k)
+    else match kget k sp with
+         | Some asm => if size_ok b req && (b_start b =? blen (m_payload asm)) && negb (b_more b) then kclr l k else kupd l k now
+         | None => l
+         end
   end.
 (* Block2Cache (for a request that got past the spool): a rendering request (block 0 / no Block2) whose rendering
    needs chunking stores it: use; one that is answered whole EVICTS the entry of its key (no rendering is kept, the
@@ -71,21 +79,20 @@ Proof.
   - pose proof (fat_first T now sp req b Hb Hn) as E. cbn zeta in E. fold k in E. rewrite E, Hn. cbn [Z.eqb].
     assert (G1 : ginv T now (kupd l k now) (td_setitem key_eqb T now k req sp)).
     { apply (td_ginv_setitem key_eqb key_eqb_eq T Tp). exact G. }
-    destruct (b_more b); cbn [fst]; [exact G1|].
-    apply ginv_accessed_again; [exact Tp|exact G1|]. apply (khas_some k _ req). apply kget_setitem_same.
+    destruct (b_more b); cbn [fst]; [exact G1|]. apply ginv_pop_after_use. exact G1.
   - replace (b_num b =? 0) with false by lia. destruct (kget k sp) as [asm|] eqn:Hg.
     2:{ rewrite (fat_unknown T now sp req b Hb Hn Hg). exact G. }
     destruct (I k asm Hg) as (bs & _ & _ & _ & Ra).
     destruct (fat_known T now sp req b asm Hb Hn Hg Ra) as (F1 & F2 & F3). fold k in F1, F2, F3.
     assert (G1 : ginv T now (kupd l k now) (td_accessed T now k sp)).
     { apply ginv_accessed; [exact Tp|exact G|]. exact (khas_some k sp asm Hg). }
-    destruct (size_ok b req) eqn:S; [|rewrite (F1 eq_refl); exact G1].
-    destruct (Z.eq_dec (b_start b) (blen (m_payload asm))) as [St|St]; [|rewrite (F2 eq_refl St); exact G1].
-    rewrite (F3 eq_refl St).
+    destruct (size_ok b req) eqn:S; [|rewrite (F1 eq_refl); exact G1]. cbn [andb].
+    destruct (Z.eq_dec (b_start b) (blen (m_payload asm))) as [St|St].
+    2:{ rewrite (F2 eq_refl St). replace (b_start b =? blen (m_payload asm)) with false by lia. exact G1. }
+    rewrite (F3 eq_refl St). replace (b_start b =? blen (m_payload asm)) with true by lia. cbn [andb].
     assert (G2 : ginv T now (kupd l k now) (td_mutate key_eqb k (appended asm req b) (td_accessed T now k sp))).
     { apply (td_ginv_mutate key_eqb key_eqb_eq); [exact G1|]. apply (khas_some k _ asm). rewrite kget_accessed. exact Hg. }
-    destruct (b_more b); cbn [fst]; [exact G2|].
-    apply ginv_accessed_again; [exact Tp|exact G2|]. apply (khas_some k _ (appended asm req b)). apply kget_mutate_same.
+    destruct (b_more b); cbn [fst negb]; [exact G2|]. apply ginv_pop_after_use. exact G2.
 Qed.
 
 Lemma is_first_hyp req1 : is_first req1 = true -> match m_block2 req1 with Some b2 => b_num b2 = 0 | None => True end.
